@@ -26,10 +26,10 @@ CLAIMED = {
                 'DelaunayTriangulation and the exported ConvexHull queries (dev and release cfg): every path that '
                 'adds/removes a cell or vertex or replaces the Tds bumps the generation counter; every hull query '
                 'touches triangulation storage only behind the fresh edge of the creation-generation comparison; '
-                'the counter is only ever incremented; the hull side of the freshness test reads only write-once hull state. Decides the staleness clause, not the geometric hull clause.',
+                'the counter is only ever incremented; the hull side of the freshness test reads only write-once hull state; after the vertex slots of a stored cell are swapped (which changes what a (cell, facet index) hull handle means) every success return is behind a generation bump. Decides the staleness clause, not the geometric hull clause.',
         'note': 'Trusted: rustc MIR; a whole-Tds replacement counts as bumped only when the replacement called '
                 'Tds::inherit_generation_from(live) (exception table empty since fix F12); Clone for Tds must share the '
-                'counter. In-place cell edits that do not change the key set are not covered.',
+                'counter. Of the in-place cell edits that do not change the key set only vertex-slot swaps are covered (SLOTBUMP).',
         'technique': 'interprocedural effect-pairing dataflow + must-pass-through (dominance) checks over rustc MIR',
         'design': '§5 C11',
     },
